@@ -119,12 +119,19 @@ def prepare(root, name):
         return [OPRUNNER, root, s], env, root
     script = dict(RUNTIME[name])
     script["log"] = os.path.join(sdir, "markers.log")
+    # the context the buildpack code receives is written into the sandbox: an input whose read
+    # failed silently (variable / store / plan entry missing) then shows as a differing directory
+    script["dump"] = os.path.join(root, "context-dump.json")
     if os.path.exists(script["log"]):
         os.unlink(script["log"])
     s = os.path.join(sdir, "script.json")
     json.dump(script, open(s, "w"))
     open(os.path.join(root, "buildpack", "buildpack.toml"), "w").write('api = "0.10"\n\n[buildpack]\nid = "verif/vb"\nversion = "1.2.3"\n\n[[targets]]\nos = "linux"\n')
-    open(os.path.join(root, "plan-in.toml"), "w").write("")
+    open(os.path.join(root, "plan-in.toml"), "w").write('[[entries]]\nname = "dep"\n\n[entries.metadata]\nv = 1\n')
+    open(os.path.join(root, "platform", "env", "VAR"), "w").write("value")
+    open(os.path.join(root, "platform", "env", "OTHER"), "w").write("second")
+    if name != "runtime-build-over-previous":
+        open(os.path.join(root, "layers", "store.toml"), "w").write('[metadata]\nprevious = "store"\n')
     if name == "runtime-build-over-previous":
         for rel, data in PREVIOUS_OUTPUTS.items():
             open(os.path.join(root, "layers", rel), "w").write(data)
